@@ -820,7 +820,7 @@ def run(ctx: vlib.Ctx):
         "code after every operation (a test, not a proof)",
     ]
     cases = [{"cmds": h, "seed": 7 + i, "rich": True, "pattern": True} for i, h in enumerate(pattern_histories())]
-    for _ in range(ctx.budget(150, 3000)):
+    for _ in range(ctx.budget(150, 2000)):
         cases.append({"cmds": gen_history(ctx.rng), "seed": ctx.rng.randrange(10**9), "rich": ctx.rng.random() < 0.7,
                       "pattern": False})
     results = vlib.pmap(w_history, cases, chunksize=2)
